@@ -49,9 +49,11 @@ Theorem C02_http_eof_means_complete : forall b0 e0 s rd dn lg,
 Proof. exact Grpchan.proofs.HttpClient.eof_means_complete. Qed.
 Print Assumptions C02_http_eof_means_complete.
 
-(* a schedule of the real client accepted by the correspondence check is a run of that system *)
+(* a schedule of the real client accepted by the correspondence check is a run of that system whose
+   receiver returned exactly the results the real client was observed to return, in order *)
 Theorem C02_http_accepted_schedule_is_a_run : forall rs b0 e0 rounds,
   HttpSched.accepts_from [Grpchan.model.HttpClient.init rs b0 e0] rounds = true ->
-  exists s rd dn lg, Grpchan.proofs.HttpClient.hreach rs b0 e0 s rd dn lg /\ Grpchan.proofs.HttpClient.Inv b0 s rd dn lg.
+  exists s rd dn, Grpchan.proofs.HttpClient.hreach rs b0 e0 s rd dn (HttpSched.all_res rounds) /\
+                  Grpchan.proofs.HttpClient.Inv b0 s rd dn (HttpSched.all_res rounds).
 Proof. exact HttpTrace.accepted_http_schedule_is_a_run. Qed.
 Print Assumptions C02_http_accepted_schedule_is_a_run.
